@@ -96,14 +96,39 @@ class Check:
   def rule(self, rid: str, text: str):
     self.rules_applied[rid] = text
 
+  def _shape_distance(self, fi):
+    cache = self.__dict__.setdefault('_shape_cache', {})
+    k = id(fi.node)
+    if k not in cache:
+      from fjsa import shapes
+      ds = []
+      f = fi
+      # the function itself and the functions it is nested in (a closure is judged with its builder)
+      cur = shapes.distance(fi.module.relpath, fi.qualname, fi.node)
+      cache[k] = cur
+    return cache[k]
+
   def ob(self, rule: str, where, construct, ok, detail: str = '', node=None,
-         nontrivial: bool = True, advisory: bool = False, facts=None) -> bool:
+         nontrivial: bool = True, advisory: bool = False, facts=None, exact: bool = False) -> bool:
     f, q, ln = self._where(where)
     if node is not None and getattr(node, 'lineno', None):
       ln = node.lineno
     status = 'ok' if ok else 'violation'
     if ok is None:
       status = 'inconclusive'
+    if status == 'violation' and isinstance(where, FuncInfo) and not exact:
+      # A pattern rule that does not find its construct in a function that was restructured far beyond a local edit does not
+      # describe that code any more: the verdict is withheld (INCONCLUSIVE) instead of claiming a violation. Rules whose
+      # evidence does not depend on the shape of the function (exact=True: purity, donation, forwarding, lints ...) are exempt.
+      from fjsa import shapes
+      d = self._shape_distance(where)
+      probe = Ob(rule, f, q, construct_text(construct), 'violation', norm_text(detail), ln, nontrivial, advisory, facts)
+      is_known = any(finding_matches(e, self.prop, probe) for e in load_known_findings() if e.get('status') == 'known')
+      if (d is None or d > shapes.THRESHOLD) and not is_known:
+        status = 'inconclusive'
+        detail = (f'[verdict withheld: {where.qualname} ' + ('is not a function of the reference tree' if d is None else
+                  f'differs from its reference shape in {d} statements (> {shapes.THRESHOLD})') +
+                  ': the rule\'s pattern no longer describes it] ') + detail
     self.obs.append(
         Ob(rule, f, q, construct_text(construct), status, norm_text(detail), ln,
            nontrivial, advisory, facts))
